@@ -15,6 +15,7 @@
 -/
 import OpmVerif.Proofs.Peaceman
 import OpmVerif.Proofs.Connections
+import OpmVerif.Proofs.ConnectionsOrder
 import OpmVerif.Proofs.PeacemanExamples
 
 namespace OpmVerif.Props.C06
@@ -317,6 +318,76 @@ theorem history_keeps_identities [Add α] [Sub α] [Mul α] [Div α] [LT α] [De
     (hl : ∀ op ∈ ops, op.isLump = false) :
     w.conns.map Conn.ident <+: (run E ops w).conns.map Conn.ident :=
   run_idPrefix E hE ops w hl
+
+example : ∀ op ∈ Conns.Ex.ops, op.isLump = false := by
+  intro op hop
+  simp only [Conns.Ex.ops, List.mem_cons, List.mem_nil_iff, or_false] at hop
+  rcases hop with rfl | rfl | rfl | rfl | rfl <;> rfl
+
+/-! ## Any COMPORD (TRACK, DEPTH, INPUT): `WellConnections::order()` -/
+
+/-- `order()` only permutes the connections (no connection is lost, duplicated or altered). -/
+theorem order_is_permutation [Sub α] [LT α] [DecidableLT α] (F : Fns α) (ord : Order) (headI headJ : Int)
+    (cs : List (Conn α)) : (reorder F ord headI headJ cs).Perm cs :=
+  reorder_perm F ord headI headJ cs
+
+/-- `order()` is idempotent — TRACK's nearest-neighbour walk from the well head, DEPTH's
+insertion sort, INPUT — so a keyword that adds no connection cannot move any. -/
+theorem order_idempotent [LinearOrder α] [Sub α] (F : Fns α) (ord : Order) (headI headJ : Int)
+    (cs : List (Conn α)) :
+    reorder F ord headI headJ (reorder F ord headI headJ cs) = reorder F ord headI headJ cs :=
+  reorder_idem F ord headI headJ cs
+
+/-- `order()` looks only at cell and depth: it commutes with every in-place rewrite that keeps
+them (scaling CF, setting the state, …). -/
+theorem order_ignores_factors [LinearOrder α] [Sub α] (F : Fns α) (ord : Order) (headI headJ : Int)
+    (f : Conn α → Conn α) (hf : KeepsPlace f) (cs : List (Conn α)) :
+    reorder F ord headI headJ (cs.map f) = (reorder F ord headI headJ cs).map f :=
+  reorder_map F ord headI headJ f hf cs
+
+/-- Every history leaves the well in its COMPORD order. -/
+theorem history_stays_ordered [LinearOrder α] [Sub α] [Add α] [Mul α] [Div α] (E : Env α)
+    (ops : List (Op α)) (w : WellConns α) (h : Ordered E w.conns) : Ordered E (run E ops w).conns :=
+  run_ordered E ops w h
+
+/-- WPIMULT / WELOPEN histories under **any** COMPORD: on a well in its COMPORD order a
+connection that no record addresses stays at its position with every field unchanged … -/
+theorem wpimult_welopen_frame_any_compord [LinearOrder α] [Sub α] [Add α] [Mul α] [Div α] (E : Env α)
+    (ops : List (Op α)) (w : WellConns α) (ho : Ordered E w.conns) (hp : w.pending = none)
+    (hnc : ∀ op ∈ ops, op.isCompdat = false) (m : Nat) (c : Conn α) (h : w.conns[m]? = some c)
+    (ht : ∀ op ∈ ops, op.touches E c.ident = false) :
+    (run E ops w).conns[m]? = some c :=
+  run_frame_anyorder E ops w ho hp hnc m c h ht
+
+/-- … and the order, cells, completion numbers, sort values and segments of *all* connections
+are exactly as before. -/
+theorem wpimult_welopen_keep_order_any_compord [LinearOrder α] [Sub α] [Add α] [Mul α] [Div α] (E : Env α)
+    (ops : List (Op α)) (w : WellConns α) (ho : Ordered E w.conns)
+    (hnc : ∀ op ∈ ops, op.isCompdat = false) (hl : ∀ op ∈ ops, op.isLump = false) :
+    (run E ops w).conns.map Conn.ident = w.conns.map Conn.ident :=
+  run_idents_anyorder E ops w ho hnc hl
+
+/-- Arbitrary histories (COMPDAT included) under any COMPORD, without positions: a connection
+that no record addresses is still present afterwards, unchanged in every field. -/
+theorem history_frame_any_compord [LinearOrder α] [Sub α] [Add α] [Mul α] [Div α] (E : Env α)
+    (ops : List (Op α)) (w : WellConns α) (hp : w.pending = none) (c : Conn α) (h : c ∈ w.conns)
+    (ht : ∀ op ∈ ops, op.touches E c.ident = false) :
+    c ∈ (run E ops w).conns :=
+  run_frame_mem E ops w hp c h ht
+
+/-- Non-vacuity: the three-connection vertical well is in TRACK order and in DEPTH order, the
+COMPDAT-free history does not address connection 1; and on that instance TRACK really
+reorders (a well entered bottom-up is walked top-down from the head). -/
+example : Ordered Conns.Ex.envTrack Conns.Ex.cs ∧ Ordered Conns.Ex.envDepth Conns.Ex.cs ∧
+    (∀ op ∈ Conns.Ex.opsNoCompdat, op.isCompdat = false ∧ op.isLump = false ∧
+      op.touches Conns.Ex.envTrack Conns.Ex.c1.ident = false) := by
+  refine ⟨by unfold Ordered; decide, by unfold Ordered; decide, ?_⟩
+  intro op hop
+  simp only [Conns.Ex.opsNoCompdat, List.mem_cons, List.mem_nil_iff, or_false] at hop
+  rcases hop with rfl | rfl | rfl | rfl <;> decide
+
+example : (reorder Conns.Ex.fnsInt .TRACK 0 0 Conns.Ex.cs.reverse).map (·.k) = [0, 1, 2] ∧
+    (reorder Conns.Ex.fnsInt .DEPTH 0 0 Conns.Ex.cs.reverse).map (·.k) = [0, 1, 2] := by decide
 
 end lists
 
